@@ -60,7 +60,10 @@ var c12Times = []string{"2014-04-26 17:24:37.3186369", "May 8, 2009 5:57:51 PM",
 	// every spelling the built-in layouts admit: negative and zero embedded offsets, hours and days without a leading zero, midnight, year boundaries
 	"02/Dec/2021:11:55:34 -0700", "31/Dec/2021:23:59:59 -1130", "01/Jan/2022:00:00:00 +0000", "02/Dec/2021:1:55:34 +0800", "02 Dec 2021 1:55:34.000", "31 Dec 1999 23:59:59.999",
 	"211202 1:55:34", "000101 00:00:00", "2021/12/02 - 1:55:34", "2021/12/02 - 00:00:00", "Tue Dec 2 1:55:34.000000 2021", "Fri Dec 31 23:59:59.999999 2021",
-	"2021-12-02 1:55:34.000 UTC", "2021-12-02 00:00:00.000 UTC", "1970-01-01 00:00:00.000 UTC", "1969-12-31 23:59:59.000 UTC"}
+	"2021-12-02 1:55:34.000 UTC", "2021-12-02 00:00:00.000 UTC", "1970-01-01 00:00:00.000 UTC", "1969-12-31 23:59:59.000 UTC",
+	// integers of every width around the epoch widths (10 / 13 / 16 / 19 digits), signed and unsigned, zero-padded
+	"163841733", "-163841733", "+163841733", "1638417330", "-1638417330", "163841733001", "+163841733001", "-16384173300", "1638417330012", "163841733001222", "-163841733001222",
+	"1638417330012223", "163841733001222333", "+163841733001222333", "1638417330012223334", "-1638417330012223334", "0000000001", "0", "-1", "+0", "16384173300122233344", "1e9", "1638417330.5"}
 
 var c12Docs = []string{"<a id='7'><b>x</b><b>y</b></a>", "<a><b><c>deep</c></b>tail</a>", "<?xml version=\"1.0\"?><r><i k=\"v\">1</i></r>", "<a><b>unclosed", "plain text", ""}
 
